@@ -1518,7 +1518,7 @@ func main() {
 	vf.Main(vf.Spec{
 		ID:    "C09",
 		Level: "exploration",
-		Rule: "pairs (M, UPPER(M)) found by reflection on all 9 scalar, 18 vector and 18 matrix types (+14 immutable types scanned for twins); per pair every tuple of the operand lattices " +
+		Rule: "pairs (M, UPPER(M)) found by reflection on all 9 scalar, 18 vector and 18 matrix types (+14 immutable types scanned for twins); for the scalar (scalar, float64) -> bool twins (Equals) a tolerance-boundary block: wide-magnitude W x W operands with tolerances just below / at / just above the exact, the float64 and the float32 difference; per pair every tuple of the operand lattices " +
 			"(scalars: boundary grid incl. +-Inf/NaN x jet order 0/1/2 x receiver prior sign/jet; containers: all shape tuples 0..D, every element pattern over {0/absent,1,-2,stored-zero,zero-with-derivative,second-order element (order 2, N=1; Real containers of <= 2 cells)}, receiver prior {absent,stored-zero,junk}); " +
 			"additionally every alias configuration of {receiver, operands}: all set partitions in which one object is passed in several slots of the same concrete type (r=a, r=b, a=b, r=a=b; interface-typed operands holding the receiver's type), " +
 			"built identically in both worlds, shapes per block 0..D, contents of an aliased block from the operand lattice {0/absent,1,-2,stored-zero,zero-with-derivative,second-order} (scalars: the full operand grid); " +
